@@ -40,7 +40,7 @@ import (
 // While it is open, a pair of traces that differs ONLY by that order is counted and listed as a
 // report-only disagreement instead of a violation (everything else stays bit-exact); the witness kind
 // "strict" always compares strictly.  Set to false once resolveLinks sorts.
-const anchorOrderDefectOpen = true
+const anchorOrderDefectOpen = false
 
 // brokenOOFOrderDefectOpen: layout/pages.go ranges over the map layoutContext.brokenOutOfFlow when it
 // continues, on the next page, the floats / absolutely positioned boxes that were broken at a page
@@ -50,7 +50,7 @@ const anchorOrderDefectOpen = true
 // through layout.VerifPageHook in the first, sequential render — an observed precondition, not a
 // failure pattern) is left out of the comparisons, and the biased generator emits at most one
 // page-breaking out-of-flow box per document.
-const brokenOOFOrderDefectOpen = true
+const brokenOOFOrderDefectOpen = false
 
 type cdoc struct {
 	gen.Doc
